@@ -590,10 +590,13 @@ func (r *run) query(raw any) {
 
 func (r *run) step(s drv.Step) {
 	var a args
-	if err := json.Unmarshal(s.Args, &a); err != nil {
-		panic(err)
+	if len(s.Args) > 0 {
+		if err := json.Unmarshal(s.Args, &a); err != nil {
+			panic(err)
+		}
 	}
 	switch s.Act {
+	case "Init": // recorded by the driver itself (present when a recorded trace is replayed)
 	case "Setup":
 		r.setup(a, s.Args)
 	case "Rereg":
